@@ -17,6 +17,21 @@ WHY = {1: "objects-differ", 2: "initial-state-differs", 3: "goal-verdict-differs
        9: "certificate-incomplete", 10: "action-signatures-differ"}
 
 
+def restore_tracebacks():
+    """the third-party `pddl` package sets sys.tracebacklimit = 0 when imported; undo it so that a crash of the check
+    (or of the implementation) can be located"""
+    import sys
+    if hasattr(sys, "tracebacklimit"):
+        del sys.tracebacklimit
+
+
+def parse_pddl(reader, dom, prob):
+    try:
+        return reader.parse_problem_string(dom, prob)
+    finally:
+        restore_tracebacks()
+
+
 class OutOfFragment(Exception):
     """the pair cannot be serialised into the modelled fragment (counted, not reported)"""
 
